@@ -292,6 +292,51 @@ func c04Units(tier string, seed int64) []Unit {
 			}
 		}
 	}})
+	// what a test case draws does not depend on the TEXT with which an attempt is rejected: the same generator
+	// function skipping with different messages (among them words the library uses itself) draws the same
+	units = append(units, Unit{Name: "C04/skip-message-independence", Run: func(c *Ctx) {
+		tb := NewTB("C04")
+		tb.Quiet = true
+		mk := func(msg string) func(t *rapid.T, r *Rec) {
+			g := rapid.Custom(func(t *rapid.T) int {
+				v := rapid.IntRange(0, 7).Draw(t, "v")
+				if v%2 == 1 {
+					t.Skip(msg)
+				}
+				return v
+			})
+			return func(t *rapid.T, r *Rec) {
+				r.Draws = append(r.Draws, Render(g.Draw(t, "a")), Render(g.Draw(t, "b")))
+			}
+		}
+		msgs := []string{"odd", "", "overrun", "invalid data", "too many rejections in repeat", "no possible regexp match", "can't find a valid (non-skipped) action"}
+		n := 300
+		if !quick {
+			n = 5000
+		}
+		for sd := uint64(1); sd <= uint64(n); sd++ {
+			var ref runOut
+			for i, m := range msgs {
+				o, _ := runWith(mk(m), func(prop func(*rapid.T)) rapid.VerifResult {
+					return rapid.VerifRunSeed(tb, uint64(seed)*3+sd, false, prop)
+				})
+				c.R.Evals++
+				c.R.Transitions++
+				if i == 0 {
+					ref = o
+					c.R.States++
+					c.Outcome(kindName(o.res.Kind)+o.draws, len(o.res.Pruned) != len(o.res.Data))
+					continue
+				}
+				if o.draws != ref.draws || o.res.Kind != ref.res.Kind || fmt.Sprint(o.res.Data) != fmt.Sprint(ref.res.Data) {
+					c.Violate(Violation{Sig: fmt.Sprintf("C04 skip-message-changes-the-run message=%q", m),
+						Detail: fmt.Sprintf("seed %d: a Custom function that rejects odd values with t.Skip(%q): %s draws %s (%d words); with t.Skip(%q): %s draws %s (%d words)", uint64(seed)*3+sd, msgs[0], kindName(ref.res.Kind), ref.draws, len(ref.res.Data), m, kindName(o.res.Kind), o.draws, len(o.res.Data)),
+						Replay: map[string]any{"engine": "seed", "seed": uint64(seed)*3 + sd, "message": m}})
+					break
+				}
+			}
+		}
+	}})
 	units = append(units, c04HistoryUnit())
 	units = append(units, Unit{Name: "C04/example-determinism", Run: func(c *Ctx) {
 		n := 200
